@@ -53,6 +53,11 @@ def rule_mixed(col, facts):
     for m in ("parse_complete", "parse_partial", "fast_path_complete", "fast_path_partial"):
         f = facts.fn(PF + "parse::ParseFloat::" + m)
         p = mixed_pairs(f)
+        if not p:
+            # the literal pair list is not in the entry point itself (moved into a helper, or written as a table
+            # keyed by the base): evaluate which mixed pairs reach the back-end
+            from rules import dispatch as _dp
+            p = _dp.admitted_mixed_pairs(facts, f, m)
         col.check(R, "parser:" + m, p == w and bool(p),
                   "parser admits mixed (radix, exponent_base) pairs %s but the writer asserts %s: one side emits/accepts hex-float forms the other rejects" % (sorted(p), sorted(w)), f.loc())
 
